@@ -7,8 +7,8 @@
 (* Part 1, Strip: an abstract enum source = derive lists + other attributes +  *)
 (* logos attributes in various positions; StripDerives is the specification    *)
 (* of what must remain.  Part 2, Files: a state machine over the output file   *)
-(* {absent, current, currentCRLF, stale} with the operations write / check /   *)
-(* tamper / crlf / delete; TLC enumerates every history up to MAXOPS and       *)
+(* {absent, current, crlf, eol, stale} with the operations write / check /     *)
+(* five kinds of damage / crlf / addeol / delete; TLC enumerates every history up to MAXOPS and       *)
 (* prints the expected exit status and file state after every step.            *)
 EXTENDS Naturals, Sequences, FiniteSets, TLC, Json, IOUtils
 
@@ -41,13 +41,22 @@ VARIABLES mode,   \* "strip" | "files"
 
 vars == <<mode, src, file, hist>>
 
-Ops == {"write", "check", "tamper", "crlf", "delete"}
+(* The environment's ways of changing the file.  "tamper" appends a line, "cutline" keeps only the    *)
+(* first line (the output has several: a string literal of the enum contains a line break), "chop"    *)
+(* drops the last bytes, "flip" overwrites one byte in the middle, "empty" truncates to length 0:     *)
+(* all of them leave a file that does not hold the output.  "crlf" rewrites an exact copy with CRLF   *)
+(* line endings and "addeol" appends a final line break to an exact copy: both still hold the output  *)
+(* "ignoring line endings".                                                                            *)
+Damage == {"tamper", "cutline", "chop", "flip", "empty"}
+Ops == {"write", "check", "crlf", "addeol", "delete"} \cup Damage
+UpToDate == {"current", "crlf", "eol"}
 
 Apply(op, f) ==
-  CASE op = "write"  -> [exit |-> 0, file |-> IF f = "crlf" THEN "crlf" ELSE "current"]   \* an up-to-date file (modulo line endings) is left alone
-    [] op = "check"  -> [exit |-> IF f \in {"current", "crlf"} THEN 0 ELSE 1, file |-> f]
-    [] op = "tamper" -> [exit |-> 0, file |-> IF f = "absent" THEN "absent" ELSE "stale"]
+  CASE op = "write"  -> [exit |-> 0, file |-> IF f \in UpToDate THEN f ELSE "current"]   \* an up-to-date file (modulo line endings) is left alone
+    [] op = "check"  -> [exit |-> IF f \in UpToDate THEN 0 ELSE 1, file |-> f]
+    [] op \in Damage -> [exit |-> 0, file |-> IF f = "absent" THEN "absent" ELSE "stale"]
     [] op = "crlf"   -> [exit |-> 0, file |-> IF f = "current" THEN "crlf" ELSE f]
+    [] op = "addeol" -> [exit |-> 0, file |-> IF f = "current" THEN "eol" ELSE f]
     [] op = "delete" -> [exit |-> 0, file |-> "absent"]
 
 Init == \/ (mode = "strip" /\ src \in Sources /\ file = "absent" /\ hist = <<>>)
@@ -67,7 +76,7 @@ Spec == Init /\ [][Next]_vars
 CheckIsReadOnly == [][\A op \in Ops : (Step(op) /\ op = "check") => file' = file]_vars
 CheckIffCurrent == \A i \in 1..Len(hist) :
                      hist[i][1] = "check" =>
-                       (hist[i][2] = 0) = ((IF i = 1 THEN "absent" ELSE hist[i - 1][3]) \in {"current", "crlf"})
+                       (hist[i][2] = 0) = ((IF i = 1 THEN "absent" ELSE hist[i - 1][3]) \in UpToDate)
 
 EmitStrip == mode = "strip" => PrintT(<<"STRIP", ToJson([src |-> src, keep |-> StripDerives(src)])>>)
 EmitFiles == (mode = "files" /\ Len(hist) = MaxOps) => PrintT(<<"FILES", ToJson([hist |-> hist])>>)
